@@ -1015,13 +1015,21 @@ class Exec(object):
                 self.store(st, ("local", p["id"], name), v, sort_of(q))
             else:
                 st.locals[p["id"]] = v
-        return self.exec(A.body_of(fn), [st])
+        fin = self.exec(A.body_of(fn), [st])
+        if any(str(s_.status).startswith("goto:") for s_ in fin):
+            raise Undecided("goto whose label is not reached in forward statement order")
+        return fin
 
     def exec(self, n, states):
         k = n.get("kind")
         if k is None:
             return states
         self.kinds_seen.add(k)
+        if k == "LabelStmt":
+            # forward goto: the states that jumped here resume at the label
+            for s_ in states:
+                if s_.status == "goto:" + str(n.get("declId")):
+                    s_.status = "run"
         run = [s for s in states if s.status == "run"]
         rest = [s for s in states if s.status != "run" and s.status != "dead"]
         if not run:
@@ -1049,6 +1057,15 @@ class Exec(object):
 
     def st_NullStmt(self, n, st):
         return [st]
+
+    def st_GotoStmt(self, n, st):
+        # forward jumps only: the state is parked until the LabelStmt is reached in statement order; a state still parked at the end of
+        # the function (backward jump, or a label inside a construct that was skipped) makes the run undecided
+        st.status = "goto:" + str(n.get("targetLabelDeclId"))
+        return [st]
+
+    def st_LabelStmt(self, n, st):
+        return self.exec(n["inner"][0], [st]) if n.get("inner") else [st]
 
     def st_DeclStmt(self, n, st):
         states = [st]
